@@ -17,6 +17,9 @@ From CG Require Import Spec.MinimizeSpec.
 From CG Require Import Model.Regex.
 From CG Require Import Model.Subset.
 From CG Require Import Spec.Lang.
+From CG Require Import Model.Lexer.
+From CG Require Import Model.Parser.
+From CG Require Import Spec.Printer.
 (* add new Require lines above this line *)
 Require Import ExtrOcamlBasic ExtrOcamlString.
 Extraction Language OCaml.
@@ -58,5 +61,13 @@ Separate Extraction
   Lang.equiv_dfa_expr
   Lang.equiv_wdfa_expr
   Lang.levels_ok
+  Parser.parse
+  Parser.parse_with
+  Parser.repaired
+  Parser.pinned
+  Printer.text
+  Printer.located_with
+  Printer.wf_stmt
+  Printer.erase_grammar
   (* add new roots above this line *)
   Prelude.pow2.
